@@ -1,6 +1,7 @@
 import ArroyModel.Check
 import ArroyModel.Upgrade
 import ArroyModel.Ids
+import ArroyModel.Split
 /-! The trace driver (PROTOCOL.md): runs the model on the operations of a trace written by the
 Rust harness, compares every answer and every dump, and evaluates the predicates of
 `Check.lean` on the implementation's own data. -/
@@ -97,6 +98,9 @@ structure DState where
   nOps : Nat := 0
   nBuilds : Nat := 0
   nBuildsReplayed : Nat := 0
+  nSplitSearches : Nat := 0
+  nSplitSearchesSeen : Nat := 0
+  splitChecksPerBuild : Nat := 6
   nBuildsLoose : Nat := 0
   nDumps : Nat := 0
   nQueries : Nat := 0
@@ -259,6 +263,7 @@ def splitEvents (evs : List (List String)) : Option (List (List Nat) × List Boo
         | some x => go rest inSplit wordBytes ns (rs.push (decide (x ≥ 2^31))) bs
         | none => none
     | ["ev", "draw64", _] :: rest => go rest inSplit wordBytes ns rs bs
+    | ["ev", "chosen", _] :: rest => go rest inSplit wordBytes ns rs bs
     | ["ev", "fill", _] :: rest => go rest inSplit wordBytes ns rs bs
     | ["ev", "batch", k] :: rest =>
       match parseNat? k with
@@ -285,6 +290,7 @@ def splitEventsFor (m : Metric) (evs : List (List String)) : Option (List (List 
         | some x => go rest inSplit ns (rs.push (decide (x ≥ 2^31))) bs
         | none => none
     | ["ev", "draw64", _] :: rest => go rest inSplit ns rs bs
+    | ["ev", "chosen", _] :: rest => go rest inSplit ns rs bs
     | ["ev", "fill", _] :: rest => go rest inSplit ns rs bs
     | ["ev", "batch", k] :: rest =>
       match parseNat? k with
@@ -292,6 +298,28 @@ def splitEventsFor (m : Metric) (evs : List (List String)) : Option (List (List 
       | none => none
     | _ :: _ => none
   go fix false #[] #[] #[]
+
+/-- the split searches of a build, when the trace has them (`--choices`): the items drawn by
+    `choose_two` / `choose` and the normal `create_split` returned -/
+def splitGroups (m : Metric) (evs : List (List String)) : List (List Nat × List Nat) :=
+  let rec go (evs : List (List String)) (cur : Array Nat) (acc : Array (List Nat × List Nat)) : List (List Nat × List Nat) :=
+    match evs with
+    | [] => acc.toList
+    | ["ev", "splitstart"] :: rest => go rest #[] acc
+    | ["ev", "chosen", v] :: rest =>
+      match parseNat? v with
+      | some x => go rest (cur.push x) acc
+      | none => go rest cur acc
+    | ["ev", "normal", h] :: rest =>
+      match ofHex h with
+      | some bytes => go rest #[] (if cur.isEmpty then acc else acc.push (cur.toList, (chunks m.wordBytes bytes).map ofLe))
+      | none => go rest #[] acc
+    | _ :: rest => go rest cur acc
+  go evs #[] #[]
+
+/-- equal f32 bit patterns, NaNs as a class (quantised words: equal) -/
+def sameVec (m : Metric) (a b : List Nat) : Bool :=
+  a.length == b.length && (List.zip a b).all fun (x, y) => x == y || (!m.isBq && F32.isNaN x && F32.isNaN y)
 
 def treeDepth : T → Nat
   | .leaf _ => 0
@@ -775,6 +803,23 @@ def handleOp (d : DState) (p : Pending) (res : List String) : DState := Id.run d
     if res.take 2 == ["err", "mapfull"] then
       return { d with resync := true, preBuild := none, nCancelled := d.nCancelled + 1 }
     let some (normals, rands, batches) := splitEventsFor c.metric p.evs.toList | return d.diff "unparsable events" "" ""
+    -- the split searches, when recorded: every normal must be `createSplit` of the leaves drawn
+    let sPre := if c.metric = .dot then Build.preprocessDot c s else s
+    -- (a sample of at most `splitChecksPerBuild` of them, evenly spread: one check costs 200 soft-float iterations)
+    let groups := splitGroups c.metric p.evs.toList
+    let stride := (groups.length + d.splitChecksPerBuild - 1) / d.splitChecksPerBuild
+    let sample := (List.zip (List.range groups.length) groups).filterMap fun (i, g) => if i % stride == 0 then some g else none
+    d := { d with nSplitSearchesSeen := d.nSplitSearchesSeen + groups.length }
+    for (ids, normal) in sample do
+      d := { d with nSplitSearches := d.nSplitSearches + 1 }
+      if ids.length != 2 + twoMeansIterations then
+        d := d.diff "number of items drawn by a split search" (toString (2 + twoMeansIterations)) (toString ids.length)
+      let drawn := ids.filterMap (Writer.itemLeaf c sPre)
+      match Split.createSplit c.metric c.host drawn with
+      | some n =>
+        if !(sameVec c.metric n normal) then
+          d := d.diff s!"normal of the split search over items {ids.take 2}…" (" ".intercalate (n.map hex8)) (" ".intercalate (normal.map hex8))
+      | none => d := d.diff "split search drew fewer than two stored items" "" (toString ids)
     let st0 : BState := { store := s, cancelAt := args.cancel, normals, rands, batches }
     let refKey := p.toks.filter fun t => !(t.startsWith "cancel=")
     match Build.build c args.opts 100000 st0 with
@@ -1127,7 +1172,7 @@ def step (d : DState) (line : String) : DState :=
   | [] => d
 
 def statsLine (d : DState) : String :=
-  s!"STAT spec_checks={d.nSpecChecks} records={d.nRecords} snapshots={d.nSnapshots} recovered={d.nRecovered} tolerance_checked={d.nTolChecked} ops={d.nOps} builds={d.nBuilds} builds_replayed={d.nBuildsReplayed} builds_loose={d.nBuildsLoose} cancelled_or_failed={d.nCancelled} dumps={d.nDumps} queries={d.nQueries} exact_checked={d.nExact} monotone_pairs={d.nMonotone} self_lookups={d.nSelfLookups} split_nodes_seen={d.nSplits} random_splits_seen={d.nRandomSplits} item_children_seen={d.nItemChildren} routed_pairs={d.nRouted} max_items={d.maxItems} max_depth={d.maxDepth} failures={d.failures}"
+  s!"STAT spec_checks={d.nSpecChecks} records={d.nRecords} snapshots={d.nSnapshots} recovered={d.nRecovered} tolerance_checked={d.nTolChecked} ops={d.nOps} builds={d.nBuilds} builds_replayed={d.nBuildsReplayed} split_searches={d.nSplitSearches} split_searches_recorded={d.nSplitSearchesSeen} builds_loose={d.nBuildsLoose} cancelled_or_failed={d.nCancelled} dumps={d.nDumps} queries={d.nQueries} exact_checked={d.nExact} monotone_pairs={d.nMonotone} self_lookups={d.nSelfLookups} split_nodes_seen={d.nSplits} random_splits_seen={d.nRandomSplits} item_children_seen={d.nItemChildren} routed_pairs={d.nRouted} max_items={d.maxItems} max_depth={d.maxDepth} failures={d.failures}"
 
 end Driver
 end Arroy
